@@ -10,6 +10,12 @@ var commonAssume = []string{
 	"floating point values are concrete on every path (math.Log2 etc. are the native functions)",
 }
 
+var h02Bounds = map[string]string{
+	"H02":     "recipe family: Allow/Require/Exclude symbolic within the masks given as harness parameters (allowmask/requiremask/excludemask, bits Uppers=1 Lowers=2 Digits=4 Symbols=8 Ambiguous=16); AllowChars and ExcludeChars each one of the first `strings` probe strings (\"\", a, 0a5, é!é, ✓Z, O0, ab, xyz!); RequireSets one of the first `reqsets` probe families (nil, {0}, {a,5é}, {\"\",ab}, {ab,bc}, {✓,!@,Z}, {0123456789}, {aa}); Length 1..L; MaxTrials 1..T; every draw symbolic (all alphabet indices, all accept/reject patterns)",
+	"quick":   "masks 12/4/16, strings 3, reqsets 8, L 2, T 2",
+	"outside": "lengths above L, MaxTrials above T, custom strings outside the probe lists; the pre-flight refusal (MaxFailRate is set to 1 by the harness) is C13's subject",
+}
+
 func propSpecs() map[string]*PropSpec {
 	specs := []*PropSpec{
 		{
@@ -28,6 +34,28 @@ func propSpecs() map[string]*PropSpec {
 				"outside": "more than K consecutive rejections (probability < 2^-K); quality of the OS source (source bytes are assumed independent and uniform)",
 			},
 			Assume: append([]string{"the threshold oracle is the maximal one (largest multiple of n not exceeding 2^32-1): a sampler that used a smaller, still unbiased threshold would be reported and has to be judged by hand"}, commonAssume...),
+		},
+		{
+			ID: "C02", Sub: "spg", Level: "model_checking",
+			Harnesses: []HSpec{
+				{Name: "H02", Quick: P{"allowmask": 12, "requiremask": 4, "excludemask": 16, "strings": 3, "reqsets": 8, "L": 2, "T": 2},
+					Thorough: P{"allowmask": 14, "requiremask": 12, "excludemask": 20, "strings": 5, "reqsets": 8, "L": 3, "T": 3},
+					Reach:    []string{"returned", "accepted", "accepted-after-retry", "exhausted", "empty-alphabet"}},
+			},
+			Bounds: h02Bounds,
+			Assume: append([]string{"bounded draws are summarised by the kernel contract verified by C01 (a fresh value d < n per call, bound n recorded); a change that bypasses the kernel is executed as written and shows up as a missing draw"}, commonAssume...),
+		},
+		{
+			ID: "C03", Sub: "spg", Level: "model_checking",
+			Harnesses: []HSpec{
+				{Name: "H02", Quick: P{"allowmask": 12, "requiremask": 4, "excludemask": 16, "strings": 3, "reqsets": 8, "L": 2, "T": 2},
+					Thorough: P{"allowmask": 31, "requiremask": 31, "excludemask": 31, "strings": 1, "reqsets": 1, "L": 1, "T": 1},
+					Reach:    []string{"returned", "accepted", "empty-alphabet"}},
+				{Name: "H02", Label: "custom-strings", ThoroughOnly: true, Thorough: P{"allowmask": 14, "requiremask": 12, "excludemask": 20, "strings": 8, "reqsets": 8, "L": 2, "T": 2},
+					Reach: []string{"returned", "accepted", "accepted-after-retry"}},
+			},
+			Bounds: h02Bounds,
+			Assume: append([]string{"bounded draws are summarised by the kernel contract verified by C01"}, commonAssume...),
 		},
 		{
 			ID: "C11", Sub: "spg", Level: "model_checking",
